@@ -1,43 +1,21 @@
-(* Recorded findings of property C16 (never gate a check): witnesses on the faithful model that
-   the full-strength statements fail on the unchanged tree. *)
-From Coq Require Import ZArith List Bool Lia.
-From ND.model Require Import Callbacks.
-Import ListNotations.
-Open Scope Z_scope.
+(* Recorded findings of property C16 (never gate a check).
+   The witnesses for SetOptimizer duplicates and for the call-counting repeated-metric callbacks
+   (late attachment, short circuit, Below/Above first entry) were removed when /repo was repaired
+   (fix commits 988d08c, 9737159): the full-strength theorems are now in props/P_C16.v.
 
-(* F5: SetOptimizer(<class>) hands a shared parameter to the optimiser twice *)
-Theorem optimizer_params_nodup_refuted :
-  exists nets : list (list Z), Forall (@NoDup Z) nets /\ ~ NoDup (opt_params nets).
-Proof.
-  exists [[1; 2]; [1; 2]]. split.
-  - repeat (apply Forall_cons || apply Forall_nil); repeat (apply NoDup_cons; [cbn [In]; lia|]); apply NoDup_nil.
-  - unfold opt_params. cbn [concat app]. intros H. inversion H as [|? ? Hin _]; subst. apply Hin. cbn [In]. lia.
-Qed.
+   Still open: the history key of a custom metric.  _RepeatedMetricChange.__init__ and
+   EveCallback.__init__ build f'{phase}_{metric}'; BaseSolver stores custom metrics under
+   f'{phase}__{name}' (double underscore) and only the loss under f'{phase}_loss'. *)
+From Coq Require Import String.
+Open Scope string_scope.
 
-(* F10a: a repeated-metric callback attached when the history is not empty (a later fit()):
-   the history 1,2,3 then 4 has two increases in a row, the counter says one *)
-Theorem repeated_late_attachment_refuted :
-  exists (k : rkind) (n : Z) (h0 xs : list Z),
-    (n <=? run_counter (rel_of k) 0 h0 xs) <> (n <=? Z.of_nat (streak (rel_of k) (rev xs ++ h0))).
-Proof. exists (RUp 0), 2, [3; 2; 1], [4]. vm_compute. discriminate. Qed.
+Definition callback_key (phase metric : string) : string := phase ++ "_" ++ metric.
+Definition solver_key (phase name : string) : string :=
+  if string_dec name "loss" then phase ++ "_" ++ name else phase ++ "__" ++ name.
 
-(* F10b: behind a short-circuiting `|` the counter is neither increased nor reset at the epochs
-   where the first operand holds: PeriodLocal(4) | RepeatedMetricUp(repetition=2) on the
-   train losses 1,2,3,0,1 fires at epoch 5 although 5 is not a multiple of 4 and the last two
-   pairs are (1,0) up and (0,3) down *)
-Theorem repeated_short_circuit_refuted :
-  exists (p : pred) (vs : list view),
-    fst (run_pred p vs) <> map (fun v => psem v p) vs.
-Proof.
-  exists (POr [period_local 4 0; repeated (RUp 0) true 2]),
-         [mkView 1 1 5 [1] []; mkView 2 2 5 [2; 1] []; mkView 3 3 5 [3; 2; 1] [];
-          mkView 4 4 5 [0; 3; 2; 1] []; mkView 5 5 5 [1; 0; 3; 2; 1] []].
-  vm_compute. discriminate.
-Qed.
+Theorem metric_key_refuted :
+  exists name : string, name <> "loss" /\ callback_key "train" name <> solver_key "train" name.
+Proof. exists "m". split; [discriminate|]. vm_compute. discriminate. Qed.
 
-(* F10c: RepeatedMetricBelow/Above never count the oldest history entry: one value below the
-   threshold, repetition 1: documented "below for the latest 1 epoch" holds, the callback says no *)
-Theorem below_first_entry_refuted :
-  exists (thr n : Z) (h : list Z),
-    (n <=? Z.of_nat (streak (rel_of (RBelow thr)) h)) <> (n <=? Z.of_nat (streak1 (fun x => x <? thr) h)).
-Proof. exists 1, 1, [0]. vm_compute. discriminate. Qed.
+Theorem metric_key_loss_ok : forall phase, callback_key phase "loss" = solver_key phase "loss".
+Proof. intros phase. reflexivity. Qed.
